@@ -124,6 +124,16 @@ func runMulti(_ *testing.T, c multiCase) error {
 			}
 			return fmt.Errorf("session %d: accepted connection reports remote address %q; the sanitised client_ip values of its own carriers are %s", i, res.Remote[0], strings.Join(o, ","))
 		}
+		if s.LateStream && res.LateOpened {
+			// a second stream of the same session is a second accepted connection of the session: its
+			// address is the one the session was established with, whatever its later carriers said
+			if len(res.LateRemote) == 0 {
+				return fmt.Errorf("session %d: a second stream opened on the established session did not surface as an accepted connection within the budget", i)
+			}
+			if res.LateRemote[0] != res.Remote[0] {
+				return fmt.Errorf("session %d: the connection accepted for a later stream of the same session reports remote address %q, the session was established with %q (its carriers' client_ip values in order: %s)", i, res.LateRemote[0], res.Remote[0], carrierIPs(s, used))
+			}
+		}
 		if used == 1 || res.Carriers > 0 && firstOnly(s, res) {
 			first := s.Carriers[0]
 			if len(s.Carriers) == 1 {
@@ -210,6 +220,22 @@ func TestVerifC05Sessions(t *testing.T) {
 
 func TestVerifReplay(t *testing.T) { vstat.RunReplays(t) }
 
+func carrierIPs(s *rig.Session, used int) string {
+	var o []string
+	for k := 0; k < used; k++ {
+		cr := s.Carriers[len(s.Carriers)-1]
+		if k < len(s.Carriers)-1 {
+			cr = s.Carriers[k]
+		}
+		if cr.NoClientIP {
+			o = append(o, "<absent>")
+		} else {
+			o = append(o, fmt.Sprintf("%q", cr.ClientIP))
+		}
+	}
+	return strings.Join(o, " ")
+}
+
 // C18 (c): the same rig, focused on attribution: small payloads, many address forms.
 var uAttr = vstat.New("C18", "c18_attribution")
 
@@ -225,6 +251,7 @@ func TestVerifC18Attribution(t *testing.T) {
 		var c multiCase
 		n := rapid.IntRange(2, 6).Draw(rt, "nsessions")
 		distinct := map[string]bool{}
+		late := 0
 		for i := 0; i < n; i++ {
 			labelCounter++
 			label := vstat.Seed()<<32 ^ 0x1800000000000000 ^ labelCounter<<8 ^ uint64(i)
@@ -240,10 +267,14 @@ func TestVerifC18Attribution(t *testing.T) {
 				s.Carriers = append(s.Carriers, cr)
 			}
 			s.StartDelayMs = rapid.SampledFrom([]int{0, 0, 10}).Draw(rt, "start")
+			s.LateStream = rapid.Bool().Draw(rt, "latestream")
+			if s.LateStream && nc > 1 {
+				late++
+			}
 			c.Sessions = append(c.Sessions, s)
 		}
 		uAttr.Journal(c)
-		uAttr.Case(c, len(distinct) >= 2, fmt.Sprintf("sessions=%d", n))
+		uAttr.Case(c, len(distinct) >= 2, fmt.Sprintf("sessions=%d", n), fmt.Sprintf("late streams after a carrier switch=%d", min(late, 2)))
 		if err := vstat.Safely(func() error { return runMulti(t, c) }); err != nil {
 			if vstat.Inconclusive(err) {
 				uAttr.Add("inconclusive", 1)
